@@ -232,6 +232,15 @@ func configText(sc Scenario, root string, servers []string, variant string) stri
 	if variant == "incompatible" {
 		metricKeys = "[pid]"
 	}
+	switch variant {
+	case "metrickey-overlap":
+		// a metric key that is also the (first) orchestration key: every new pipeline would register the label twice
+		metricKeys = "[source, app]"
+	case "metrickey-duplicate":
+		metricKeys = "[source, pid, source]"
+	case "metrickey-unknown":
+		metricKeys = "[source, nosuchfield]"
+	}
 	b.WriteString("metricKeys: " + metricKeys + "\n")
 	b.WriteString("transformations:\n  - type: drop\n    match:\n      kind: dropme\n    percentage: 100\n    metricLabel: filtered\n  - type: drop\n    match:\n      kind: dropme2\n    percentage: 100\n    metricLabel: filtered\n  - type: parseTime\n    key: time\n    errorLabel: timeError\n" + extra)
 	if variant == "invalid" {
